@@ -193,6 +193,67 @@ RedK(f, xs, kw) ==
                          dev == [i \in 1..n |-> DSquare(DSub(xs[i], m))]
                      IN DScale(<<1, n - Kw(kw, "ddof", 0)>>, DSumSeq(dev))
 
+\* ------------------------------------------------------------------ further exact operations (no backward rule anywhere:
+\* every one is a forward definition over the dual-number kernels)
+\* piecewise-linear / rational activations; parameters are rationals carried by the statement (s.p1, s.p2)
+Un2(f) == f \in {"leaky_relu", "hard_tanh", "soft_sign", "clip"}
+Un2K(f, s, x) ==
+  CASE f = "leaky_relu" -> IF x.v[1] > 0 THEN x ELSE IF x.v[1] < 0 THEN DScale(s.p1, x) ELSE DC(RZero)
+    [] f = "hard_tanh"  -> DMax2(DC(s.p1), DMin2(x, DC(s.p2)))       \* maximum(lower, minimum(x, upper))
+    [] f = "clip"       -> DMin2(DC(s.p2), DMax2(DC(s.p1), x))       \* minimum(a_max, maximum(a_min, a))
+    [] f = "soft_sign"  -> DDiv(x, DAdd(DC(ROne), DAbs(x)))
+\* cumulative sums / products along one axis (axis absent: over the flattened operand)
+CumF(f) == f \in {"cumsum", "cumprod"}
+CumCells(f, c, sh, ax) ==
+  [p \in 1..Size(sh) |-> LET oi == Unravel(p, sh)
+                             xs == [j \in 1..(oi[ax + 1] + 1) |-> c[Ravel([oi EXCEPT ![ax + 1] = j - 1], sh)]]
+                         IN IF f = "cumsum" THEN DSumSeq(xs) ELSE DProdSeq(xs)]
+\* n-ary add_sequence / multiply_sequence
+RECURSIVE BShapeAll(_)
+BShapeAll(shs) == IF Len(shs) = 1 THEN shs[1] ELSE BShape(shs[1], BShapeAll(Tail(shs)))
+\* einsum without ellipsis: s.subs = one label sequence per operand, s.out = the output labels (labels are integers)
+EinLabels(subs) == UNION {RangeOf(subs[i]) : i \in 1..Len(subs)}
+EinSize(subs, shs, l) == LET i == CHOOSE i \in 1..Len(subs) : l \in RangeOf(subs[i])
+                             j == CHOOSE j \in 1..Len(subs[i]) : subs[i][j] = l
+                         IN shs[i][j]
+EinOK(subs, shs, out) ==
+  /\ \A i \in 1..Len(subs) : Len(subs[i]) = Len(shs[i])
+  /\ \A i \in 1..Len(subs) : \A j \in 1..Len(subs[i]) : shs[i][j] = EinSize(subs, shs, subs[i][j])
+  /\ RangeOf(out) \subseteq EinLabels(subs) /\ Cardinality(RangeOf(out)) = Len(out)
+EinCells(subs, shs, out, cs) ==
+  LET osh == [k \in 1..Len(out) |-> EinSize(subs, shs, out[k])]
+      sumset == EinLabels(subs) \ RangeOf(out)
+      sl == [k \in 1..Cardinality(sumset) |-> CHOOSE x \in sumset : Cardinality({y \in sumset : y < x}) = k - 1]
+      ssh == [k \in 1..Len(sl) |-> EinSize(subs, shs, sl[k])]
+      Pos(seq, l) == CHOOSE k \in 1..Len(seq) : seq[k] = l
+  IN [p \in 1..Size(osh) |->
+        LET oi == Unravel(p, osh) IN
+        DSumSeq([q \in 1..Size(ssh) |->
+           LET si == Unravel(q, ssh)
+               val(l) == IF l \in RangeOf(out) THEN oi[Pos(out, l)] ELSE si[Pos(sl, l)]
+           IN DProdSeq([i \in 1..Len(subs) |-> cs[i][Ravel([j \in 1..Len(subs[i]) |-> val(subs[i][j])], shs[i])]])])]
+\* conv_nd(x, w, stride, padding, dilation): x (N, C, X1..), w (F, C, K1..); zero padding
+ConvOutDim(X, K, st, pd, dl) == ((X + 2 * pd - ((K - 1) * dl + 1)) \div st) + 1
+ConvValidDim(X, K, st, pd, dl) == X + 2 * pd >= (K - 1) * dl + 1 /\ (X + 2 * pd - ((K - 1) * dl + 1)) % st = 0
+ConvShape(xsh, wsh, st, pd, dl) ==
+  <<xsh[1], wsh[1]>> \o [j \in 1..(Len(xsh) - 2) |-> ConvOutDim(xsh[j + 2], wsh[j + 2], st[j], pd[j], dl[j])]
+ConvCells(cx, cw, xsh, wsh, st, pd, dl) ==
+  LET osh == ConvShape(xsh, wsh, st, pd, dl) nd == Len(xsh) - 2
+      ksh == <<xsh[2]>> \o SubSeq(wsh, 3, Len(wsh))             \* (C, K1, ...)
+  IN [p \in 1..Size(osh) |->
+        LET oi == Unravel(p, osh)
+            terms == [q \in 1..Size(ksh) |->
+                        LET ki == Unravel(q, ksh)
+                            xp == [j \in 1..nd |-> oi[j + 2] * st[j] + ki[j + 1] * dl[j] - pd[j]]
+                        IN IF \A j \in 1..nd : xp[j] >= 0 /\ xp[j] < xsh[j + 2]
+                           THEN DMul(cx[Ravel(<<oi[1], ki[1]>> \o xp, xsh)], cw[Ravel(<<oi[2]>> \o ki, wsh)])
+                           ELSE DC(RZero)]
+        IN DSumSeq(terms)]
+\* max_pool(x, pool, stride): pools over the trailing Len(pool) axes, no padding; the first maximal element wins
+PoolShape(xsh, pool, st) ==
+  LET nl == Len(xsh) - Len(pool) IN
+  SubSeq(xsh, 1, nl) \o [j \in 1..Len(pool) |-> ((xsh[nl + j] - pool[j]) \div st[j]) + 1]
+
 \* ------------------------------------------------------------------ structural (gather) operations on one tensor
 \* each yields [ok, sh, g]; `view` says whether NumPy returns a view of the operand
 StructF == {"getitem", "reshape", "transpose", "T", "swapaxes", "moveaxis", "squeeze", "expand_dims",
@@ -245,6 +306,47 @@ ApplyOp(st, s) ==
     [] Un(f) ->
         LET c == OpCells(st, os[1]) IN
         MkResultL(st, s, OpSh(st, os[1]), [i \in 1..Len(c) |-> UnK(f, c[i])], os, ElementwiseLayout(st, os, OpSh(st, os[1])))
+    [] Un2(f) ->
+        LET c == OpCells(st, os[1]) IN
+        MkResultL(st, s, OpSh(st, os[1]), [i \in 1..Len(c) |-> Un2K(f, s, c[i])], os, ElementwiseLayout(st, os, OpSh(st, os[1])))
+    [] CumF(f) ->
+        LET sh0 == OpSh(st, os[1]) c == OpCells(st, os[1])
+            flat == ~Has(kw, "axis")
+            sh == IF flat THEN <<Size(sh0)>> ELSE sh0
+            ax == IF flat THEN 0 ELSE NormAxis(kw.axis[1], Len(sh0))
+        IN MkResult(st, s, sh, CumCells(f, c, sh, ax), os)
+    [] f \in {"addseq", "mulseq"} ->
+        LET shs == [i \in 1..Len(os) |-> OpSh(st, os[i])] sh == BShapeAll(shs)
+            cs == [i \in 1..Len(os) |-> OpCells(st, os[i])] gs == [i \in 1..Len(os) |-> BGather(shs[i], sh)]
+        IN MkResult(st, s, sh, [p \in 1..Size(sh) |-> LET xs == [i \in 1..Len(os) |-> cs[i][gs[i][p]]]
+                                                   IN IF f = "addseq" THEN DSumSeq(xs) ELSE DProdSeq(xs)], os)
+    [] f = "einsum" ->
+        LET shs == [i \in 1..Len(os) |-> OpSh(st, os[i])] cs == [i \in 1..Len(os) |-> OpCells(st, os[i])]
+        IN MkResult(st, s, [k \in 1..Len(s.out) |-> EinSize(s.subs, shs, s.out[k])], EinCells(s.subs, shs, s.out, cs), os)
+    [] f = "conv" ->
+        LET xsh == OpSh(st, os[1]) wsh == OpSh(st, os[2]) IN
+        MkResult(st, s, ConvShape(xsh, wsh, s.stride, s.pad, s.dil),
+                 ConvCells(OpCells(st, os[1]), OpCells(st, os[2]), xsh, wsh, s.stride, s.pad, s.dil), os)
+    [] f = "maxpool" ->
+        LET xsh == OpSh(st, os[1]) c == OpCells(st, os[1]) osh == PoolShape(xsh, s.pool, s.stride)
+            nl == Len(xsh) - Len(s.pool)
+        IN MkResult(st, s, osh,
+                    [p \in 1..Size(osh) |->
+                       LET oi == Unravel(p, osh)
+                           win == [q \in 1..Size(s.pool) |->
+                                     LET ki == Unravel(q, s.pool)
+                                     IN c[Ravel(SubSeq(oi, 1, nl) \o [j \in 1..Len(s.pool) |-> oi[nl + j] * s.stride[j] + ki[j]], xsh)]]
+                       IN win[DArgBest(win, 2, 1, FALSE)]], os)
+    [] f = "margin_ranking" ->     \* mean(max(0, margin - y * (x1 - x2)));  s.y : [sh, v] of +-1 rationals, s.margin
+        LET sh == OpSh(st, os[1]) c1 == OpCells(st, os[1]) c2 == OpCells(st, os[2]) gy == BGather(s.y.sh, sh) n == Size(sh)
+        IN MkResult(st, s, <<>>, <<DScale(<<1, n>>, DSumSeq([p \in 1..n |->
+                       DMax2(DC(RZero), DSub(DC(s.margin), DScale(s.y.v[gy[p]], DSub(c1[p], c2[p]))))]))>>, os)
+    [] f = "multiclass_hinge" ->   \* (1/N) sum_i sum_{j # y_i} max(0, x_ij - x_iy + hinge);  s.y : Seq of class indices (0-based)
+        LET sh == OpSh(st, os[1]) c == OpCells(st, os[1]) n == sh[1] k == sh[2]
+        IN MkResult(st, s, <<>>, <<DScale(<<1, n>>, DSumSeq([p \in 1..(n * k) |->
+                       LET i == (p - 1) \div k j == (p - 1) % k
+                       IN IF j = s.y[i + 1] THEN DC(RZero)
+                          ELSE DMax2(DC(RZero), DAdd(DSub(c[p], c[i * k + s.y[i + 1] + 1]), DC(s.hinge)))]))>>, os)
     [] Red(f) ->
         LET sh == OpSh(st, os[1]) c == OpCells(st, os[1]) ax == RedAxes(kw, sh)
             grp == ReduceGroups(sh, ax)
